@@ -19,7 +19,7 @@ SPECIAL = ['__all__', '__docformat__', '__slots__', '__doc__', '__name__', '__in
            'cached_property', 'singledispatch', 'register', 're', 'compile', 'sys', 'os', 'path', 'version_info', 'platform', 'twisted', 'python', 'deprecate', 'versions']
 MODNAMES = ['os', 'sys', 'typing', 'attr', 'attrs', 'dataclasses', 'zope.interface', 'zope.interface.interface', 'twisted.python.deprecate', 'incremental', 'm0', 'm1', 'm2',
             'pkg', 'pkg.sub', 'pkg.sub.deep', 'nosuch', 'nosuch.deeper', '__future__', 'abc', 'functools', 're', 'typing_extensions', 'é_mod']
-STRINGS = ['', 'x', 'epytext', 'restructuredtext', 'google', 'numpy', 'plaintext', 'epytext en', 'nosuchformat', '  ', 'a.b', '.', '..', 'a b', '*', '__all__', 'f', 'C',
+STRINGS = ['_types', '_napoleon', '_pyval_repr', 'doctest', '__init__', 'epytext.markup', 'index', '', 'x', 'epytext', 'restructuredtext', 'google', 'numpy', 'plaintext', 'epytext en', 'nosuchformat', '  ', 'a.b', '.', '..', 'a b', '*', '__all__', 'f', 'C',
            '\x00', '\ud800', '\udfff\ud800', 'é', '‮', '\xa0nbsp', '<b>&amp;</b>', ']]>', '\\', "'", '"', '\'"', '\n', '\r', '\t', '%s', '{0}', '{', '}', 'a' * 300,
            '1.0.0', 'Twisted', 'L{x}', '`x`', ':param a: b', '@param a: b', '\x1b[0m', '\x7f', '\x85', ' ']
 
@@ -337,6 +337,21 @@ def special_assign(c: Ctx, depth: int) -> ast.stmt:
     r = c.r
     k = r.randrange(12)
     strs = ast.List([ast.Constant(r.choice(STRINGS + PLAIN)) if r.random() < .8 else expr(c, 1) for _ in range(r.randint(0, 4))], ast.Load())
+    if r.random() < .12:
+        # literals that ast.literal_eval cannot evaluate (unhashable keys / set members) or that are huge
+        odd = r.choice([ast.Dict([ast.List([], ast.Load())], [ast.Constant(1)]), ast.Set([ast.Dict([], [])]), ast.Dict([ast.Dict([], [])], [ast.Constant(0)]),
+                        ast.Set([ast.List([ast.Constant('x')], ast.Load())]), ast.Constant(int('f' * 5000, 16)), ast.Constant(2 ** 20000),
+                        ast.List([ast.Constant(int('7' * 4000, 8))], ast.Load()), ast.BinOp(ast.List([ast.List([], ast.Load())], ast.Load()), ast.Mult(), ast.Constant(3))])
+        tgt = r.choice(['__all__', '__docformat__', '__slots__', name(c), name(c).upper()])
+        if r.random() < .3:
+            return ast.Assign([ast.Attribute(ast.Name(name(c), ast.Load()), '__doc__', ast.Store())], odd)
+        if r.random() < .2:
+            return ast.Assign([ast.Name('__all__', ast.Store())], ast.List([ast.Constant('x'), odd], ast.Load()))
+        return ast.Assign([ast.Name(tgt, ast.Store())], odd)
+    if r.random() < .08:
+        # old-school decoration applied to something already decorated, or to a name that is not a method
+        n = name(c)
+        return ast.Assign([ast.Name(n, ast.Store())], ast.Call(ast.Name(r.choice(['staticmethod', 'classmethod', 'property']), ast.Load()), [ast.Name(n, ast.Load())], []))
     if k == 0:
         return ast.Assign([ast.Name('__all__', ast.Store())], r.choice([strs, ast.Tuple(strs.elts, ast.Load()), expr(c, 2), ast.BinOp(strs, ast.Add(), dotted(c))]))
     if k == 1:
